@@ -651,8 +651,8 @@ impl Prop for C06 {
     }
     fn case_count(&self, tier: Tier) -> u64 {
         match tier {
-            Tier::Quick => 1500,
-            Tier::Thorough => 20000,
+            Tier::Quick => 4000,
+            Tier::Thorough => 80000,
         }
     }
     fn fixed_cases(&self, tier: Tier) -> Vec<Case> {
@@ -753,7 +753,7 @@ fn dl_cand(r: &str, probe: u32) -> String {
         None => format!("cand {r} readable=0 crc=0 parses=0 marker=?"),
         Some(d) => {
             let crc = gnu_debuglink_crc32(&d);
-            let refmain = format!("elf:b=feedfacefeedfacefeedfacefeedface00000000;m=__refmain__;dl=ref.dbg/{crc:08x}");
+            let refmain = format!("elf:b=feedfacefeedfacefeedfacefeedface00000000;m=refmain_marker;dl=ref.dbg/{crc:08x}");
             let mut m = Mem::default();
             m.files.insert("main".into(), materialize(&refmain).unwrap());
             m.files.insert("dl0".into(), d);
@@ -761,9 +761,9 @@ fn dl_cand(r: &str, probe: u32) -> String {
             let sm = SymbolManager::with_helper(m);
             let marker = match catch_unwind(AssertUnwindSafe(|| block(sm.load_symbol_map_from_location(Loc("main".into()), None)))) {
                 Ok(Ok(map)) => marker_of(&map, probe),
-                _ => "__refmain__".into(),
+                _ => "refmain_marker".into(),
             };
-            if marker == "__refmain__" || (probe != PROBE_ADDR && marker == "nosym") {
+            if marker == "refmain_marker" || (probe != PROBE_ADDR && marker == "nosym") {
                 // with a foreign probe address the reference main itself shows `nosym`
                 let used = marker == "nosym" && probe != PROBE_ADDR && {
                     // distinguish "companion used but has nothing at probe" from "not used": probe the
@@ -774,7 +774,7 @@ fn dl_cand(r: &str, probe: u32) -> String {
                     m2.dl_cands.push("dl0".into());
                     let sm2 = SymbolManager::with_helper(m2);
                     match block(sm2.load_symbol_map_from_location(Loc("main".into()), None)) {
-                        Ok(map) => marker_of(&map, PROBE_ADDR) != "__refmain__",
+                        Ok(map) => marker_of(&map, PROBE_ADDR) != "refmain_marker",
                         Err(_) => false,
                     }
                 };
@@ -806,8 +806,15 @@ fn sup_cand(r: &str, mainref: &str, main: &MainInfo, probe: u32) -> String {
     };
     let mut marker = "?".to_string();
     if let (Some(b), Some((wanted, off))) = (&buildid, &main.alt) {
-        if b.len() == wanted.len() && !b.is_empty() {
-            let refmain = format!("{mainref}+p{off}:{}", hex(b));
+        let restated = if b.len() == wanted.len() && !b.is_empty() {
+            Some(format!("{mainref}+p{off}:{}", hex(b)))
+        } else if mainref.starts_with("elf:") && !mainref.contains('+') && !b.is_empty() {
+            // a generated main file: state the candidate's id (of another length) in the link instead
+            Some(mainref.replace(&format!("/{}", hex(wanted)), &format!("/{}", hex(b))))
+        } else {
+            None
+        };
+        if let Some(refmain) = restated {
             let mut m = Mem::default();
             if let Some(md) = materialize(&refmain) {
                 m.files.insert("main".into(), md);
@@ -1156,7 +1163,8 @@ mod families {
         d.windows(pat.len()).position(|w| w == pat)
     }
 
-    fn gen_debuglink(seed: u64, out: &mut Vec<Case>) {
+    /// (main files, companion candidates) of the generated debuglink family
+    fn dl_material(seed: u64) -> (Vec<(&'static str, String)>, Vec<String>) {
         let i = ids(seed);
         let b = hex(&i.b);
         let genuine = format!("elf:b={b};m=dbg_sym");
@@ -1178,14 +1186,24 @@ mod families {
             ("ok", format!("elf:b={b};m=main_sym;dl=x.dbg/{crc:08x}")),
             ("other", format!("elf:b={b};m=main_sym;dl=x.dbg/{crc_other:08x}")),
             ("zero", format!("elf:b={b};m=main_sym;dl=x.dbg/00000000")),
+            // the stated CRC is that of a file that is not an object file at all: it is "accepted" by the
+            // CRC test but cannot be used, and the search has to go on
+            ("garbagecrc", format!("elf:b={b};m=main_sym;dl=x.dbg/{:08x}", gnu_debuglink_crc32(&materialize(&garbage).unwrap()))),
+            ("symcrc", format!("elf:b={b};m=main_sym;dl=x.dbg/{:08x}", gnu_debuglink_crc32(&materialize(&symfile).unwrap()))),
+            ("magiccrc", format!("elf:b={b};m=main_sym;dl=x.dbg/{:08x}", gnu_debuglink_crc32(&materialize(&c_magic).unwrap()))),
+            ("namecrc", format!("elf:b={b};m=main_sym;dl=x.dbg/{:08x}", gnu_debuglink_crc32(&materialize(&c_name).unwrap()))),
             ("nolink", format!("elf:b={b};m=main_sym")),
             ("texthash", format!("elf:t=93;m=main_sym;dl=x.dbg/{crc:08x}")),
             ("noid", format!("elf:t=-;m=main_sym;dl=x.dbg/{crc:08x}")),
         ];
-        let pool = [&genuine, &other, &c_name, &c_last, &c_magic, &c_text, &c_ident, &missing, &garbage, &symfile];
+        (mains, vec![genuine, other, c_name, c_last, c_magic, c_text, c_ident, missing, garbage, symfile])
+    }
+
+    fn gen_debuglink(seed: u64, out: &mut Vec<Case>) {
+        let (mains, pool) = dl_material(seed);
         for (mt, main) in &mains {
             let hd = dl_header(main, PROBE_ADDR);
-            out.push(Case { name: format!("dl-{mt}-none"), ops: vec![hd.clone()] });
+            out.push(Case { name: format!("dl{seed}-{mt}-none"), ops: vec![hd.clone()] });
             let kmax = if *mt == "ok" { 3 } else { 2 };
             for k in 1..=kmax {
                 for a in arrangements(pool.len(), k) {
@@ -1195,9 +1213,9 @@ mod families {
                     }
                     let mut ops = vec![hd.clone()];
                     for &x in &a {
-                        ops.push(dl_cand(pool[x], PROBE_ADDR));
+                        ops.push(dl_cand(&pool[x], PROBE_ADDR));
                     }
-                    out.push(Case { name: format!("dl-{mt}-{}", a.iter().map(|x| x.to_string()).collect::<String>()), ops });
+                    out.push(Case { name: format!("dl{seed}-{mt}-{}", a.iter().map(|x| x.to_string()).collect::<String>()), ops });
                 }
             }
         }
@@ -1269,7 +1287,7 @@ mod families {
                     1 => vec![hd.clone(), c, genuine.clone()],
                     _ => vec![hd.clone(), dl_cand("missing", probe), c],
                 };
-                out.push(Case { name: format!("dlfx-{tag}-{class}-{off}"), ops });
+                out.push(Case { name: format!("dlfx-{tag}-{k}-{class}-{off}"), ops });
             }
             // the main file with a corrupted CRC field: the genuine companion must be refused
             let mi = main_info(&main, probe);
@@ -1296,32 +1314,37 @@ mod families {
         )
     }
 
-    fn gen_sup(seed: u64, out: &mut Vec<Case>) {
+    /// (main files, supplementary candidates) of the generated dwz family for a stated id of `len` bytes
+    fn sup_material(seed: u64, len: usize) -> (Vec<(&'static str, String)>, Vec<String>) {
         let i = ids(seed);
+        let w = &i.b[..len];
+        let sup = |id: &[u8], name: &str| format!("elf:b={};str=pad,{name};t=-", hex(id));
+        let genuine = sup(w, "fn_genuine");
+        let twin = sup(w, "fn_twin"); // another file that carries the wanted id
+        let d_last = sup(&flip(w, len - 1), "fn_dlast");
+        let d_first = sup(&flip(w, 0), "fn_dfirst");
+        let longer = sup(&[w, &[0x77u8][..]].concat(), "fn_longer");
+        let shorter = if len > 1 { sup(&w[..len - 1], "fn_shorter") } else { "elf:str=pad,fn_noid2;t=-".to_string() };
+        let noid = "elf:str=pad,fn_noid;t=-".to_string();
+        let be = format!("elf:e=be;b={};str=pad,fn_be;t=-", hex(w));
+        let missing = "missing".to_string();
+        let garbage = "raw:7f454c46".to_string();
+        let symfile = format!("sym:id={};m=breakpad_sym", i.req);
+        let mains = vec![
+            ("ok", format!("elf:b=aa55{};m=main_sym;alt=sup.debug/{};dw=4", hex(&i.b[..4]), hex(w))),
+            ("flip", format!("elf:b=aa55{};m=main_sym;alt=sup.debug/{};dw=4", hex(&i.b[..4]), hex(&flip(w, len - 1)))),
+            ("nolink", format!("elf:b=aa55{};m=main_sym;dw=4", hex(&i.b[..4]))),
+        ];
+        (mains, vec![genuine, twin, d_last, d_first, longer, shorter, noid, be, missing, garbage, symfile])
+    }
+
+    fn gen_sup(seed: u64, out: &mut Vec<Case>) {
         for (lt, len) in [("w20", 20usize), ("w16", 16), ("w8", 8), ("w1", 1)] {
-            let w = &i.b[..len];
-            let sup = |id: &[u8], name: &str| format!("elf:b={};str=pad,{name};t=-", hex(id));
-            let genuine = sup(w, "fn_genuine");
-            let twin = sup(w, "fn_twin"); // another file that carries the wanted id
-            let d_last = sup(&flip(w, len - 1), "fn_dlast");
-            let d_first = sup(&flip(w, 0), "fn_dfirst");
-            let longer = sup(&[w, &[0x77u8][..]].concat(), "fn_longer");
-            let shorter = if len > 1 { sup(&w[..len - 1], "fn_shorter") } else { "elf:str=pad,fn_noid;t=-".to_string() };
-            let noid = "elf:str=pad,fn_noid;t=-".to_string();
-            let be = format!("elf:e=be;b={};str=pad,fn_be;t=-", hex(w));
-            let missing = "missing".to_string();
-            let garbage = "raw:7f454c46".to_string();
-            let symfile = format!("sym:id={};m=breakpad_sym", i.req);
-            let mains = vec![
-                ("ok", format!("elf:b=aa55{};m=main_sym;alt=sup.debug/{};dw=4", hex(&i.b[..4]), hex(w))),
-                ("flip", format!("elf:b=aa55{};m=main_sym;alt=sup.debug/{};dw=4", hex(&i.b[..4]), hex(&flip(w, len - 1)))),
-                ("nolink", format!("elf:b=aa55{};m=main_sym;dw=4", hex(&i.b[..4]))),
-            ];
-            let pool = [&genuine, &twin, &d_last, &d_first, &longer, &shorter, &noid, &be, &missing, &garbage, &symfile];
+            let (mains, pool) = sup_material(seed, len);
             for (mt, main) in &mains {
                 let mi = main_info(main, PROBE_ADDR);
                 let hd = sup_header(main, &mi, PROBE_ADDR);
-                out.push(Case { name: format!("sup-{lt}-{mt}-none"), ops: vec![hd.clone()] });
+                out.push(Case { name: format!("sup{seed}-{lt}-{mt}-none"), ops: vec![hd.clone()] });
                 let kmax = if *mt == "ok" && lt == "w20" { 3 } else { 2 };
                 for k in 1..=kmax {
                     for a in arrangements(pool.len(), k) {
@@ -1333,9 +1356,9 @@ mod families {
                         }
                         let mut ops = vec![hd.clone()];
                         for &x in &a {
-                            ops.push(sup_cand(pool[x], main, &mi, PROBE_ADDR));
+                            ops.push(sup_cand(&pool[x], main, &mi, PROBE_ADDR));
                         }
-                        out.push(Case { name: format!("sup-{lt}-{mt}-{}", a.iter().map(|x| format!("{x:x}")).collect::<String>()), ops });
+                        out.push(Case { name: format!("sup{seed}-{lt}-{mt}-{}", a.iter().map(|x| format!("{x:x}")).collect::<String>()), ops });
                     }
                 }
             }
@@ -1375,6 +1398,15 @@ mod families {
             // a shorter note (first 16 bytes only) is a different id
             let r = format!("{supref}+p{}:10", no - 12);
             out.push(Case { name: "supfx-shortid".into(), ops: vec![hd.clone(), sup_cand(&r, &main, &mi, probe)] });
+        }
+        // single-byte corruptions elsewhere in the supplementary file leave its build id alone: such a file still
+        // is "the file with the stated build id" (what it then shows is determined by the reference run)
+        let (extra, stride) = if tier == Tier::Quick { (6, 16) } else { (60, 4) };
+        for (k, (class, off)) in corruption_offsets(&sd, extra, stride).into_iter().enumerate() {
+            let r = format!("{supref}+p{off}:{:02x}", sd[off] ^ 0x01);
+            let c = sup_cand(&r, &main, &mi, probe);
+            let ops = if k % 2 == 0 { vec![hd.clone(), c] } else { vec![hd.clone(), sup_cand("missing", &main, &mi, probe), c, genuine.clone()] };
+            out.push(Case { name: format!("supfx-corrupt-{k}-{class}-{off}"), ops });
         }
         // the main file stating a corrupted build id: the genuine file must be refused
         if let Some((w, off)) = &mi.alt {
@@ -1442,7 +1474,7 @@ mod families {
     pub fn fixed(tier: Tier) -> Vec<Case> {
         let mut out = Vec::new();
         out.push(Case { name: "symmap-noreq".into(), ops: vec!["symmap none".into(), cand_sym("elf:b=0011;m=x")] });
-        let seeds: &[u64] = if tier == Tier::Quick { &[11] } else { &[11, 12, 13] };
+        let seeds: &[u64] = if tier == Tier::Quick { &[11] } else { &[11, 12, 13, 14, 15] };
         for &seed in seeds {
             for (tag, req, set) in symmap_sets(seed) {
                 perm_cases(&format!("sm{seed}-{tag}"), &format!("symmap {req}"), &set, &mut out);
@@ -1481,6 +1513,10 @@ mod families {
         fixture_debuglink(tier, &mut out);
         fixture_sup(tier, &mut out);
         fixture_pdb(&mut out);
+        let mut seen = std::collections::HashSet::new();
+        for c in &out {
+            assert!(seen.insert(c.name.clone()), "duplicate case name {}", c.name);
+        }
         out
     }
 
@@ -1533,6 +1569,36 @@ mod families {
                     .to_string(),
             }
         };
+        let kind = rng.below(8);
+        if kind == 0 {
+            // debuglink: random list (with repetitions) of companion variants and fresh single-byte corruptions
+            let (mains, pool) = dl_material(seed % 7 + 100);
+            let (_, main) = rng.pick(&mains).clone();
+            let gd = materialize(&pool[0]).unwrap();
+            let mut ops = vec![dl_header(&main, PROBE_ADDR)];
+            for _ in 0..n.min(12) {
+                let r = if rng.chance(1, 3) {
+                    let off = rng.below(gd.len() as u64) as usize;
+                    format!("{}+p{off}:{:02x}", pool[0], gd[off] ^ (1u8 << rng.below(8)))
+                } else {
+                    rng.pick(&pool).clone()
+                };
+                ops.push(dl_cand(&r, PROBE_ADDR));
+            }
+            return ops;
+        }
+        if kind == 1 {
+            let len = *rng.pick(&[20usize, 20, 16, 8, 3]);
+            let (mains, pool) = sup_material(seed % 7 + 100, len);
+            let (_, main) = rng.pick(&mains).clone();
+            let mi = main_info(&main, PROBE_ADDR);
+            let mut ops = vec![sup_header(&main, &mi, PROBE_ADDR)];
+            for _ in 0..n.min(12) {
+                let r: &String = rng.pick(&pool[..]);
+                ops.push(sup_cand(r, &main, &mi, PROBE_ADDR));
+            }
+            return ops;
+        }
         let refs: Vec<String> = (0..n).map(|_| rand_ref(rng)).collect();
         if rng.chance(1, 2) {
             // symbol map: request the id of one of the candidates (if it has one) or a near id
@@ -1589,6 +1655,11 @@ mod families {
 fn main() {
     if std::env::var("C06_PROBE").is_ok() {
         for r in std::env::args().skip(1) {
+            if let Some(x) = r.strip_prefix("dl@") {
+                let (probe, x) = x.split_once('@').unwrap();
+                println!("{}", dl_cand(x, u32::from_str_radix(probe, 16).unwrap()));
+                continue;
+            }
             let a = abs_of(&r);
             println!("{r}\n   sym: {}\n   bin: {}", a.sym_view(), a.bin_view());
         }
